@@ -230,6 +230,25 @@ fn utf8_part(rep: &mut Report, rng: &mut Rng, thorough: bool) {
         }
     }
     rep.count_n("utf8_long_ascii_dominant", nlong);
+    // one buffer per length, reused: valid contents, then spoiled in place, then repaired — the answer follows the
+    // contents, not the address
+    for len in [1usize, 3, 4, 16, 63, 64, 65, 100, 128, 1000, 4096] {
+        let mut buf: Vec<u8> = (0..len).map(|i| b'a' + (i % 26) as u8).collect();
+        let mut seq = vec![];
+        seq.push(real_is_str(&buf).to_string());
+        let at = len - 1 - (len / 3);
+        let keep = buf[at];
+        buf[at] = 0xFF;
+        seq.push(real_is_str(&buf).to_string());
+        buf[at] = keep;
+        seq.push(real_is_str(&buf).to_string());
+        buf[0] = 0x80;
+        seq.push(real_is_str(&buf).to_string());
+        rep.count("utf8_buffer_reuse");
+        if seq != ["true", "false", "true", "false"] {
+            rep.oracle_fail(&format!("(utf8-reuse len={len})"), "diplomat_is_str-vs-unicode-definition", json!({"sequence": "valid, byte spoiled in place, repaired, first byte spoiled", "diplomat_is_str": seq, "reference": ["true", "false", "true", "false"]}));
+        }
+    }
     let model = match crate::model::run_model("C16", &lines) {
         Ok(m) => m,
         Err(e) => {
@@ -375,6 +394,19 @@ fn views_for<T: Copy + PartialEq + std::fmt::Debug + 'static>(
         out.push(ViewCase { line: format!("(from-into {align} {SYM} {len})"), real: format!("{} {}", class(back.as_ptr() as usize, p), back.len()), numeric: false });
         if dl != len || ml != len || dp != p || &*back != &data[..] {
             rep.oracle_fail(&tag, "mut-slice-roundtrip", json!({"deref_len": dl, "deref_mut_len": ml}));
+        }
+    }
+    // an empty window of a live buffer is a zero-length view with a meaningful pointer: it comes back as it went in
+    if len >= 2 {
+        for k in [0usize, 1, len / 2, len] {
+            let w: &[T] = &data[k..k];
+            let p = w.as_ptr() as usize;
+            let v: DiplomatSlice<T> = w.into();
+            let dp = (&*v).as_ptr() as usize;
+            let back: &[T] = v.into();
+            if back.as_ptr() as usize != p || dp != p || !back.is_empty() {
+                rep.oracle_fail(&tag, "empty-window-pointer-changed", json!({"window_start": k, "deref_same": dp == p, "into_same": back.as_ptr() as usize == p}));
+            }
         }
     }
     // NULL + 0 views (constructed the way C does: a (ptr, len) pair)
